@@ -194,10 +194,11 @@ pub struct Sink<T: Clone> {
     pub updates: u32,
     pub reject: Option<E>,
     pub update_error: Option<E>,
+    pub sets_seen_at_update: u32,
 }
 impl<T: Clone> Sink<T> {
     pub fn new() -> Self {
-        Self { data: SettableData::new(), got: None, sets: 0, updates: 0, reject: None, update_error: None }
+        Self { data: SettableData::new(), got: None, sets: 0, updates: 0, reject: None, update_error: None, sets_seen_at_update: 0 }
     }
 }
 impl<T: Clone> Settable<T, E> for Sink<T> {
@@ -214,6 +215,7 @@ impl<T: Clone> Settable<T, E> for Sink<T> {
 impl<T: Clone> Updatable<E> for Sink<T> {
     fn update(&mut self) -> NothingOrError<E> {
         self.updates += 1;
+        self.sets_seen_at_update = self.sets;
         if let Some(e) = self.update_error { return Err(Error::Other(e)); }
         self.update_following_data()?;
         Ok(())
